@@ -160,10 +160,11 @@ impl CharProperty {
                 let (category, invoke, group, length) = Self::parse_char_category(line)?;
                 let new_cate_id = u32::try_from(cate_map.len()).unwrap();
                 let cate_id = *cate_map.entry(category).or_insert(new_cate_id);
-                cate2info.insert(
-                    cate_id,
-                    CharInfo::new(0, cate_id, invoke, group, length).unwrap(),
-                );
+                let cinfo = CharInfo::new(0, cate_id, invoke, group, length).ok_or_else(|| {
+                    let msg = format!("LENGTH must be less than {}, {line}", 1 << LENGTH_BITS);
+                    VibratoError::invalid_format("char.def", msg)
+                })?;
+                cate2info.insert(cate_id, cinfo);
             } else {
                 char_ranges.push(Self::parse_char_range(line)?);
             }
